@@ -3,8 +3,10 @@ package props
 import (
 	"context"
 	"fmt"
+	"regexp"
 	"sort"
 	"strings"
+	"unicode/utf8"
 
 	"github.com/hashicorp/hcl-lang/decoder"
 	"github.com/hashicorp/hcl/v2"
@@ -39,9 +41,39 @@ func c14Params(tier string) (nGenQ, nGenT, broken int) {
 }
 
 // c14Workspaces are the multi-path workspaces for the fault enumeration.
-func c14Workspaces() []string { return []string{"tf-main", "tf-crlf", "tf-child-only", "four-paths"} }
+func c14Workspaces() []string {
+	return []string{"tf-main", "tf-crlf", "tf-child-only", "four-paths", "four-paths-respaced"}
+}
+
+var headerGap = regexp.MustCompile(`(?m)^(\s*[A-Za-z_][A-Za-z0-9_-]*) ("[^"\n]*")( ("[^"\n]*"))? \{`)
+
+// respaceHeaders aligns block headers with more than one blank between the
+// type and the labels (symbol names are synthesised with exactly one, so they
+// are no longer substrings of the source text).
+func respaceHeaders(src string) string {
+	return headerGap.ReplaceAllStringFunc(src, func(m string) string {
+		sub := headerGap.FindStringSubmatch(m)
+		out := sub[1] + "   " + sub[2]
+		if sub[4] != "" {
+			out += "\t" + sub[4]
+		}
+		return out + " {"
+	})
+}
 
 func c14Workspace(name string) *core.Workspace {
+	if name == "four-paths-respaced" {
+		ws := c14Workspace("four-paths")
+		for p, spec := range ws.Paths {
+			cp := *spec
+			cp.Files = map[string]string{}
+			for f, src := range spec.Files {
+				cp.Files[f] = respaceHeaders(src)
+			}
+			ws.Paths[p] = &cp
+		}
+		return ws
+	}
 	if name != "four-paths" {
 		ws, _ := fixture.Make(name)
 		// native files only
@@ -256,11 +288,30 @@ func (p c14) runWorkspace(name string, rep *runner.Reporter) {
 	}
 	queries := []string{"", "zz-absent-zz", "\""}
 	sort.Strings(names)
+	seenQ := map[string]bool{}
 	for i, n := range names {
 		if i%3 == 0 && len(n) > 2 {
 			queries = append(queries, n[1:len(n)-1], n[:2], n)
 		}
+		// windows across the blanks that separate type and labels in a name
+		for j := 0; j < len(n); j++ {
+			if n[j] != ' ' {
+				continue
+			}
+			lo, hi := j-3, j+4
+			if lo < 0 {
+				lo = 0
+			}
+			if hi > len(n) {
+				hi = len(n)
+			}
+			if w := n[lo:hi]; !seenQ[w] && utf8.ValidString(w) {
+				seenQ[w] = true
+				queries = append(queries, w)
+			}
+		}
 	}
+	queries = append(queries, "\" \"")
 	for mask := 0; mask < 1<<k; mask++ {
 		ws.FailPaths = map[string]bool{}
 		failing := 0
